@@ -280,6 +280,12 @@ func newOperator(expr parser.Expr, storage *engstore.SelectorPool, opts *query.O
 			}
 			operators[i] = operator
 		}
+		switch e.Duplicates {
+		case logicalplan.DuplicatesPerStep:
+			return exchange.NewDistinctCoalesce(model.NewVectorPool(stepsBatch), false, operators...), nil
+		case logicalplan.DuplicatesAcrossSteps:
+			return exchange.NewDistinctCoalesce(model.NewVectorPool(stepsBatch), true, operators...), nil
+		}
 		return exchange.NewCoalesce(model.NewVectorPool(stepsBatch), operators...), nil
 
 	case *logicalplan.RemoteExecution:
